@@ -544,6 +544,35 @@ def gen_C11(tier, seed):
                 p.write(fid, route='none' if route in ('inline', 'presliced') else route, data_arrays=arrs, extras=extras,
                         perm=perm, fname=f'out{fid}.dlis', **opts)
             progs.append(p.build())
+    # inline data and write-time data mixed (write-time data take precedence), two frames of different lengths, one window
+    for i in range(8 if tier == 'quick' else 80):
+        p = Prog(f'C11-mixed-{i}', {'kind': 'mixed'})
+        r1, r2 = rng.choice([4, 6]), rng.choice([5, 9])
+        for fid, variant in enumerate(['mixed', 'alldict'], start=1):
+            p.file(fid, vrl=256)
+            lf = p.lf(fid, lf=fid, fh_id='MIXED')
+            p.origin(lf, name='O')
+            arrs = {}
+            a = [rand_array(rng, 'float64', r1), rand_array(rng, 'int16', r1, 2), rand_array(rng, 'float32', r2), rand_array(rng, 'uint8', r2)] if fid == 1 else a
+            stale = rand_array(rng, 'float64', r1)
+            chans = []
+            for c, arr in enumerate(a):
+                if variant == 'mixed' and c % 2 == 0:
+                    ch = p.channel(lf, f'CH{c}', data=arr)
+                elif variant == 'mixed' and c == 1:
+                    ch = p.channel(lf, f'CH{c}', data=rand_array(rng, 'int16', r1, 2))     # overridden at write time
+                    arrs[ch] = p.array(arr)
+                else:
+                    ch = p.channel(lf, f'CH{c}')
+                    arrs[ch] = p.array(arr)
+                chans.append(ch)
+            p.frame(lf, 'FRAME-A', chans[:2])
+            p.frame(lf, 'FRAME-B', chans[2:])
+            opts = {'in_chunk': [None, 1, 3][i % 3]}
+            if i % 2:
+                opts.update({'from': 1, 'to': min(r1, r2) - 1})
+            p.write(fid, route='dict', data_arrays=arrs, fname=f'o{fid}.dlis', **opts)
+        progs.append(p.build())
     return progs
 
 
